@@ -1,6 +1,6 @@
 #!/bin/bash
 # Runs every seeded change against the checks its meta.json names (quick tier) and prints a table.
-# /repo must be clean; it is restored after every change.
+# Uses tools/try_mutant_ns.sh: /repo and /verif themselves are not touched (private mount namespace over scratch copies).
 cd /verif
 echo "| seeded change | check | caught (quick, seed ${VERIF_SEED:-0}) |"
 echo "|---|---|---|"
@@ -8,12 +8,7 @@ for d in seeded/*/; do
   id=$(basename $d)
   [ -f $d/patch.diff ] || continue
   checks=$(python3 -c "import json;print(' '.join(json.load(open('$d/meta.json'))['caught_by']))")
-  if ! git -C /repo apply --check $d/patch.diff 2>/dev/null; then echo "| $id | - | patch no longer applies |"; continue; fi
-  git -C /repo apply $d/patch.diff
-  for c in $checks; do
-    out=$(./check $c --tier quick 2>&1); rc=$?
-    nv=$(echo "$out" | grep -c "^VIOLATION")
-    echo "| $id | $c | rc=$rc violations=$nv |"
-  done
-  git -C /repo checkout -- .
+  out=$(tools/try_mutant_ns.sh $d/patch.diff quick $checks 2>&1)
+  if echo "$out" | grep -q "patch does not apply"; then echo "| $id | - | patch no longer applies |"; continue; fi
+  echo "$out" | grep "^== " | while read _ c rc nv; do echo "| $id | $c | $rc $nv |"; done
 done
